@@ -63,8 +63,8 @@ func FuzzC05(f *testing.F) {
 		}
 		var we netip.Prefix
 		weok := false
-		if netutil.ValidateDomainName(ref.TrimOneDot(s)) == nil {
-			we, weok = ref.ArpaExtract(s)
+		if p, ok := ref.ArpaExtract(s); ok && ref.Names(ref.TrimOneDot(s)).Domain {
+			we, weok = p, true
 		}
 		ge, err := netutil.ExtractReversedAddr(s)
 		if (err == nil) != weok || (weok && ge != we) {
